@@ -196,6 +196,7 @@ func cmdYield(args []string) {
 		}
 		g := globals[filepath.Dir(f)]
 		var sp []splice
+		spawns := false
 		off := func(p token.Pos) int { return fset.Position(p).Offset }
 		mentions := func(n ast.Node) bool {
 			found := false
@@ -241,9 +242,13 @@ func cmdYield(args []string) {
 			case *ast.CommClause:
 				doList(v.Body)
 			case *ast.GoStmt:
-				die("%s: go statement found - goroutines spawned by the code under test are not modelled by the scheduler", fset.Position(v.Pos()))
+				// Goroutines spawned by the code under test are not workers of the simulator: they
+				// run under the Go scheduler (yield points they reach do nothing), and the scheduler
+				// package is told to tell goroutines apart.
+				spawns = true
+				fmt.Printf("yield %s: go statement (goroutine mode: spawned goroutines run outside the simulator)\n", fset.Position(v.Pos()))
 			case *ast.SelectStmt:
-				die("%s: select statement found - not modelled by the scheduler", fset.Position(v.Pos()))
+				fmt.Printf("yield %s: select statement (blocks for real; not a scheduling point)\n", fset.Position(v.Pos()))
 			}
 			return true
 		})
@@ -252,6 +257,9 @@ func cmdYield(args []string) {
 		}
 		total += len(sp)
 		src = apply(src, sp)
+		if spawns {
+			src = append(src, []byte("\nfunc init() { zzsched.GoroutineMode = true }\n")...)
+		}
 		po := fset.Position(af.Name.End()).Offset
 		src = append(src[:po:po], append([]byte("\n\nimport zzsched "+strconv.Quote(*ctl)+"\n"), src[po:]...)...)
 		if err := os.WriteFile(f, src, 0o644); err != nil {
